@@ -222,7 +222,7 @@ def check_derived(ctx: CheckContext, r: Resolver, ci: ClassInfo, invariant_props
     ctx.info["derived_dependency_table"] = {b: sorted(v) for b, v in sorted(need.items())}
     for b, v in need.items():
         if not v:
-            ctx.error(f"{rule}: no derived field depends on base field {b} in the recompute cone (table could not be derived)")
+            ctx.abstain(rule, f"no derived field depends on base field {b} in the recompute cone (table could not be derived)")
     assigns_of = {}
     for nm, f in ci.methods.items():
         me = self_name(f)
@@ -409,11 +409,71 @@ class _OrderFlow(Flow):
                 return g
         return "unknown"
 
+    # state: (order, bools) - order in {'?','?g','<','>','=','<=','>='}; bools: local name -> frozenset of what its truth implies
+    #        ('>' / '<' / '=' : that supply/target order;  'free' : a condition that says nothing about the order and can hold on its own)
     def copy(self, s):
         return s
 
     def join(self, a, b):
-        return a if a == b else "?"
+        if a == b:
+            return a
+        oa, ob = a[0], b[0]
+        o = oa if oa == ob else ("?g" if "?g" in (oa, ob) else "?")
+        da, db = dict(a[1]), dict(b[1])
+        merged = {k: da.get(k, frozenset({"opaque"})) | db.get(k, frozenset({"opaque"})) for k in set(da) | set(db)}
+        return (o, frozenset(merged.items()))
+
+    def stmt(self, st, s):
+        if isinstance(st, ast.Match) and s[0] == "?":
+            # the cases test something this rule does not interpret (an orientation computed by a helper, an enum ...): the order inside is unknown,
+            # not "certainly unestablished"
+            s = ("?g", s[1])
+        return super().stmt(st, s)
+
+    def _implies(self, test, bools) -> frozenset:
+        """what the TRUTH of `test` implies: a set over {'>','<','=','free','opaque'} (one element per way the test can be true)"""
+        c = self._cmp(test)
+        if c is not None:
+            return frozenset({c})
+        if isinstance(test, ast.Name):
+            return bools.get(test.id, frozenset({"opaque"}))
+        if isinstance(test, ast.BoolOp) and isinstance(test.op, ast.Or):
+            out = frozenset()
+            for v in test.values:
+                out |= self._implies(v, bools)
+            return out
+        if isinstance(test, ast.BoolOp) and isinstance(test.op, ast.And):
+            parts = [self._implies(v, bools) for v in test.values]
+            facts = [p_ for p_ in parts if p_ <= {">", "<", "="} and len(p_) == 1]
+            if facts:
+                return facts[0]
+            if all(p_ == {"free"} for p_ in parts):
+                return frozenset({"free"})
+            return frozenset({"opaque"}) if any("opaque" in p_ for p_ in parts) else frozenset().union(*parts)
+        if isinstance(test, ast.Compare) and len(test.ops) == 1 and isinstance(test.comparators[0], ast.Constant) and test.comparators[0].value is None:
+            return frozenset({"free"})            # `x is None` / `x is not None`: says nothing about the supply/target order
+        if isinstance(test, ast.UnaryOp) and isinstance(test.op, ast.Not):
+            inner = self._implies(test.operand, bools)
+            return frozenset({"free"}) if inner == {"free"} else frozenset({"opaque"})
+        if isinstance(test, ast.Compare) and len(test.ops) == 1:
+            # a comparison that does not involve supply/target at all (stream type, sign of the duty ...): true independently of the order
+            names = {self_attr(x, self.me) for x in ast.walk(test) if isinstance(x, ast.Attribute)} - {None}
+
+            def constant_like(e) -> bool:
+                """a self attribute, a literal, or a member of a class/enum named by a capitalised identifier - nothing computed, no local variable"""
+                if isinstance(e, ast.Constant):
+                    return True
+                if isinstance(e, ast.UnaryOp):
+                    return constant_like(e.operand)
+                if isinstance(e, ast.Attribute):
+                    root = e
+                    while isinstance(root, ast.Attribute):
+                        root = root.value
+                    return isinstance(root, ast.Name) and (root.id == self.me or root.id.lstrip("_")[:1].isupper())
+                return False
+            if not ({self.sup, self.tar} & names) and constant_like(test.left) and constant_like(test.comparators[0]):
+                return frozenset({"free"})
+        return frozenset({"opaque"})
 
     def _cmp(self, test) -> Optional[str]:
         if isinstance(test, ast.Compare) and len(test.ops) == 1:
@@ -428,7 +488,7 @@ class _OrderFlow(Flow):
     @staticmethod
     def _meet(known: str, fact: str) -> str:
         """Combine what is known with a new fact (both in {'?','<','>','=','<=','>='})."""
-        if known == "?":
+        if known in ("?", "?g"):
             return fact
         sets = {"<": {"<"}, ">": {">"}, "=": {"="}, "<=": {"<", "="}, ">=": {">", "="}, "?": {"<", ">", "="}}
         r = sets[known] & sets[fact]
@@ -438,13 +498,22 @@ class _OrderFlow(Flow):
         return known
 
     def branch(self, test, s):
+        o, bools = s
         c = self._cmp(test)
         if c == ">":
-            return self._meet(s, ">"), self._meet(s, "<=")
+            return (self._meet(o, ">"), bools), (self._meet(o, "<="), bools)
         if c == "<":
-            return self._meet(s, "<"), self._meet(s, ">=")
+            return (self._meet(o, "<"), bools), (self._meet(o, ">="), bools)
         if c == "=":
-            return self._meet(s, "="), s
+            return (self._meet(o, "="), bools), s
+        imp = self._implies(test, dict(bools))
+        if len(imp) == 1 and next(iter(imp)) in (">", "<", "="):
+            return (self._meet(o, next(iter(imp))), bools), s
+        if "opaque" in imp:
+            # an opaque condition (a flag, a helper's verdict) guards what follows: the supply/target order under it is undecided by this rule
+            g = ("?g", bools) if o == "?" else s
+            return g, g
+        # every way the test can be true is known, and they do not agree on one order (e.g. `type == Hot or supply > target`): the order is NOT established
         return s, s
 
     def transfer(self, st, s):
@@ -456,15 +525,16 @@ class _OrderFlow(Flow):
             if g is None:
                 continue
             if g == "unknown":
-                self.ctx.ob(self.rule, f"{self.f.qualname}:{norm_stmt(call)}#{len(self.sites)}", f"{self.f.module.relpath}:{call.lineno}", False,
-                            f"{self.ci.name}.{self.f.name} selects the bound direction with a non-constant argument: the hot/cold choice cannot be tied to the supply/target order")
-                self.sites[id(call)] = False
+                self.ctx.info.setdefault("derived_order_undecided", []).append(f"{self.f.qualname}: bound direction selected by a non-constant argument")
                 continue
             kind = g["kind"]
             need = ">" if kind == "hot" else "<"
-            ok = (s == need)
+            if s[0] == "?g":
+                self.ctx.info.setdefault("derived_order_undecided", []).append(f"{self.f.qualname}: {kind} bounds computed under a condition this rule does not interpret")
+                continue
+            ok = (s[0] == need)
             msg = "" if ok else (f"{self.ci.name}.{self.f.name} computes the {kind} bounds on a path where supply {need} target is not established "
-                                 f"(known: supply {s} target)")
+                                 f"(known: supply {s[0]} target)")
             if ok and "arg_text" in g:
                 want = "Hot" if kind == "hot" else "Cold"
                 other = "Cold" if kind == "hot" else "Hot"
@@ -481,9 +551,14 @@ class _OrderFlow(Flow):
                     pos = lf["1"] > 0
                     # a = other + c
                     if a == self.tar:
-                        return "<" if pos else ">"
-                    return ">" if pos else "<"
-                return "?"
+                        return ("<" if pos else ">", s[1])
+                    return (">" if pos else "<", s[1])
+                return ("?", s[1])
+            if isinstance(st.targets[0], ast.Name):
+                # a local boolean that stands for a test:  is_hot = self._t_supply > self._t_target
+                bools = dict(s[1])
+                bools[st.targets[0].id] = self._implies(st.value, bools)
+                return (s[0], frozenset(bools.items()))
         return s
 
 
@@ -500,6 +575,6 @@ def check_helper_guards(ctx: CheckContext, r: Resolver, ci: ClassInfo, groups, r
         if not any(callee in names for (callee, _) in self_calls_in(f.node, me)):
             continue
         fl = _OrderFlow(f, me, sup, tar, groups, ctx, rule, ci)
-        fl.run(f.node, '?')
+        fl.run(f.node, ('?', frozenset()))
         n += len(fl.sites)
     return n
